@@ -23,7 +23,8 @@ RULE = ("families = one operation together with EVERY permutation of the storage
         "(operands, assignment target and source, slice source), exhaustive for ranks <= 3 (quick) on universes with "
         "lengths (2,2,3) and all-equal (2,2,2) where a positional mix-up keeps the shape; operations: + - min max * / ** , "
         "sum_to / sum_over / cast_to / get_shares_over / cumsum, slice reads with dict/tuple/Dimension keys, whole-array and "
-        "slice assignment. Each variant is checked against the model; the oracle compares all variants by label. "
+        "slice assignment; lifetime-model parameters and flodym_array_stack / split in every storage order (these two judged by the oracle only). "
+        "Each variant is checked against the model; the oracle compares all variants by label. "
         "A family is non-trivial when it has >= 2 variants.")
 ASSUMPTIONS = c01.ASSUMPTIONS + ["DataFrame round trips and stacking/splitting are covered under C11 / C06; lifetime parameters: families judged by C08's oracle and compared across storage orders (not sent to the Coq model here; C08 does that)"]
 
@@ -136,7 +137,84 @@ def generate(tier, rng):
                   for p in perms(xs) for ps in perms(sd, 6)]
             fams.append(dict(stream="exact", family="C05", fixed="target", variants=vs))
     fams += lifetime_families(tier)
+    fams += stack_split_families(tier)
     return fams
+
+
+def stack_split_families(tier):
+    """flodym_array_stack / split with every storage order of the arrays involved (judged by label, oracle only)"""
+    fams = []
+    for uni in [mk_universe((2, 2, 3), "abc"), mk_universe((2, 2, 2), "abc")]:
+        L = list(uni.keys())
+        for xs in [list(c) for r in (1, 2) for c in itertools.combinations(L, r)]:
+            new = [l for l in L if l not in xs][0]
+            k = len(uni[new]["items"])
+            parts0 = [dict(dims=xs, values=[(j + 1) * 100 + 7 * i + (i * i) % 5 for i in range(nelem(uni, xs))]) for j in range(k)]
+            vs = []
+            for p in perms(xs):
+                vs.append(dict(kind="stack", uni=uni, new=new, parts=[permute_desc(uni, d, p) for d in parts0]))
+            if len(xs) == 2:      # the parts in different orders among themselves
+                vs.append(dict(kind="stack", uni=uni, new=new, parts=[permute_desc(uni, d, xs[::-1] if j % 2 else xs) for j, d in enumerate(parts0)]))
+                vs.append(dict(kind="stack", uni=uni, new=new, parts=[permute_desc(uni, d, xs if j % 2 else xs[::-1]) for j, d in enumerate(parts0)]))
+            fams.append(dict(stream="exact", coq=False, family="STK", fixed="first part + new dimension last", variants=vs))
+        for xs in [list(c) for r in (2, 3) for c in itertools.combinations(L, r)]:
+            x0 = dict(dims=xs, values=[11 * i + (i * i) % 7 for i in range(nelem(uni, xs))])
+            for l in xs:
+                vs = [dict(kind="split", uni=uni, letter=l, arr=permute_desc(uni, x0, p)) for p in perms(xs)]
+                fams.append(dict(stream="exact", coq=False, family="STK", fixed="source", variants=vs))
+    return fams
+
+
+def run_stack_split(v):
+    import flodym as fd
+    from flodym.flodym_array_helper import flodym_array_stack
+    from arrays import build_array, fl_dim, observe, observe_array
+    uni = v["uni"]
+    if v["kind"] == "stack":
+        parts = [build_array(uni, d) for d in v["parts"]]
+        r = observe(lambda: flodym_array_stack(parts, dimension=fl_dim(uni[v["new"]])))
+        if r["kind"] == "ok":
+            r["value"] = observe_array(r["value"])
+        return r
+    a = build_array(uni, v["arr"])
+    r = observe(lambda: a.split(v["letter"]))
+    if r["kind"] == "ok":
+        r["value"] = {str(k): observe_array(x) for k, x in r["value"].items()}
+    return r
+
+
+def oracle_stack_split(case, obs):
+    for v, o in zip(case["variants"], obs["obs"]):
+        uni = v["uni"]
+        if o["kind"] != "ok":
+            return f"[STK] {v['kind']} raised {o['exc']}: {o['msg'][:80]}"
+        if v["kind"] == "stack":
+            got = Lab.from_obs(o["value"])
+            want_letters = v["parts"][0]["dims"] + [v["new"]]
+            if got.letters != want_letters:
+                return f"[STK] stacked dimensions {got.letters}, expected {want_letters} (first part's order, new dimension last)"
+            for j, d in enumerate(v["parts"]):
+                part = Lab.from_desc(uni, d)
+                item = uni[v["new"]]["items"][j]
+                for lab in part.labels():
+                    full = dict(lab, **{v["new"]: item})
+                    if got.at(full) != part.at(lab):
+                        return (f"[STK] stacking parts stored as {[p['dims'] for p in v['parts']]}: entry {full} is {got.at(full)}, "
+                                f"part {j} has {part.at(lab)} there")
+        else:
+            src = Lab.from_desc(uni, v["arr"])
+            items = uni[v["letter"]]["items"]
+            if sorted(o["value"].keys()) != sorted(str(i) for i in items):
+                return f"[STK] split over {v['letter']} returns the keys {sorted(o['value'].keys())}"
+            for it in items:
+                got = Lab.from_obs(o["value"][str(it)])
+                if v["letter"] in got.letters or sorted(got.letters) != sorted(l for l in src.letters if l != v["letter"]):
+                    return f"[STK] split part {it} has dimensions {got.letters}"
+                for lab in got.labels():
+                    full = dict(lab, **{v["letter"]: it})
+                    if got.at(lab) != src.at(full):
+                        return f"[STK] split of an array stored as {v['arr']['dims']} over {v['letter']}: part {it} entry {lab} is {got.at(lab)}, source has {src.at(full)}"
+    return None
 
 
 def _permute_param(grid, pdesc, perm):
@@ -174,6 +252,8 @@ def lifetime_families(tier):
 
 
 def run_impl(case):
+    if case["family"] == "STK":
+        return dict(kind="family", obs=[run_stack_split(v) for v in case["variants"]])
     m = FAM[case["family"]]
     return dict(kind="family", obs=[m.run_impl(v) for v in case["variants"]])
 
@@ -189,6 +269,8 @@ def _result(fam, o):
 
 
 def oracle(case, obs):
+    if case["family"] == "STK":
+        return oracle_stack_split(case, obs)
     m = FAM[case["family"]]
     if case["family"] == "C08":
         for v, o in zip(case["variants"], obs["obs"]):
@@ -228,6 +310,8 @@ def oracle(case, obs):
 
 
 def _vdesc(case, v):
+    if case["family"] == "STK":
+        return v["kind"]
     if case["family"] == "C08":
         return f"lifetime parameter {v['lifetime']['mean']['dims']}"
     if case["family"] == "C01":
